@@ -129,6 +129,25 @@ Dec(T, b, p) ==
          LET l == DecLen(T.l, b, p) IN
          IF ~l.ok \/ l.neg \/ l.k >= Huge THEN Err(p) ELSE DecMany(T.e, b, l.p, l.k, <<>>)
     [] T.t = "tuple" -> DecTuple(T.es, b, p, 1, <<>>)
+    \* paletted container [t |-> "palcont", kind |-> "blocks"|"biomes", n |-> entries, rb |-> registry bits]:
+    \* bits-per-entry byte, palette (single value / VarInt-prefixed VarInts / nothing), VarInt-prefixed longs whose
+    \* number must be what the effective width needs for n entries.  The value is not modelled (C12 does that).
+    [] T.t = "palcont" ->
+         LET h == Take(b, p, 1) IN
+         IF ~h.ok THEN h
+         ELSE LET bits == h.v[1]
+                  direct == (T.kind = "blocks" /\ bits >= 9) \/ (T.kind = "biomes" /\ bits >= 4)
+                  eff == IF bits = 0 THEN 0 ELSE IF direct THEN T.rb
+                         ELSE IF T.kind = "blocks" /\ bits <= 4 THEN 4 ELSE bits
+                  pal == IF bits = 0 THEN VarDec(b, h.p, 4)
+                         ELSE IF direct THEN [ok |-> TRUE, v |-> <<>>, p |-> h.p]
+                         ELSE Dec([t |-> "ary", l |-> "varint", e |-> [t |-> "varint"]], b, h.p)
+              IN IF ~pal.ok THEN Err(p)
+                 ELSE LET d == Dec([t |-> "bitset"], b, pal.p)
+                          vpl == IF eff = 0 THEN 1 ELSE 64 \div eff
+                          want == IF eff = 0 THEN 0 ELSE (T.n + vpl - 1) \div vpl
+                      IN \* a single-valued container (width 0) ignores its data array: any length is tolerated, as vanilla does
+                         IF ~d.ok \/ (eff # 0 /\ Len(d.v) # want) THEN Err(p) ELSE [ok |-> TRUE, v |-> <<>>, p |-> d.p]
 DecMany(E, b, p, k, acc) ==
   IF k = 0 THEN [ok |-> TRUE, v |-> acc, p |-> p]
   ELSE IF p > Len(b) /\ E.t # "opt" /\ E.t # "rest" /\ E.t # "tuple" THEN Err(p)     \* out of input: stop early
